@@ -24,7 +24,7 @@ from kernpy.core.tokens import TokenCategory as TC
 META = {
     'outside': ['behaviour of open()/csv on arbitrary bytes, locale-dependent default encodings (the sandbox runs in UTF-8 mode), process spawning, permissions: '
                 'out of reach of symbolic execution, stated rather than approximated', 'the polish-scores command', 'texts longer than the slot bounds in the string lemma'],
-    'assumptions': ['the command line is exercised in-process through kernpy.__main__.main() with sys.argv set'],
+    'assumptions': ['the command line is run as python -m kernpy in a fresh interpreter per invocation (kernpy imported from the tree under test)'],
 }
 
 
@@ -152,19 +152,25 @@ def api_ekern(text):
 
 
 def _main(argv):
-    import kernpy.__main__ as km
-    old = sys.argv
-    sys.argv = ['kernpy'] + argv
-    out, err = io.StringIO(), io.StringIO()
-    try:
-        with contextlib.redirect_stdout(out), contextlib.redirect_stderr(err):
-            km.main()
-    finally:
-        sys.argv = old
-    return out.getvalue(), err.getvalue()
+    """The command line, as a user runs it: a fresh interpreter per invocation (state kept by an earlier invocation of the
+    harness process must not mask or fake anything).  kernpy is imported from the same tree as in this process."""
+    import subprocess
+    env = dict(os.environ)
+    root = os.path.dirname(os.path.dirname(os.path.abspath(kp.__file__)))
+    env['PYTHONPATH'] = root + (os.pathsep + env['PYTHONPATH'] if env.get('PYTHONPATH') else '')
+    p = subprocess.run([sys.executable, '-m', 'kernpy'] + argv, env=env, capture_output=True, text=True, timeout=300)
+    return p.stdout, p.stderr
 
 
-LAYOUTS = ('single', 'single+output', 'dir', 'dir-recursive')
+def _python(code, argv):
+    import subprocess
+    env = dict(os.environ)
+    root = os.path.dirname(os.path.dirname(os.path.abspath(kp.__file__)))
+    env['PYTHONPATH'] = root + (os.pathsep + env['PYTHONPATH'] if env.get('PYTHONPATH') else '')
+    return subprocess.run([sys.executable, '-c', code] + argv, env=env, capture_output=True, text=True, timeout=300)
+
+
+LAYOUTS = ('single', 'single+output', 'dir', 'dir-recursive', 'api-sequence')
 
 
 def ob_d(layout: int, order: int, crlf: bool) -> bool:
@@ -201,6 +207,13 @@ def _d_body(layout, order, crlf):
             for p in targets:
                 outs[p] = os.path.join(tmp, 'custom_name.ekrn')
                 _main(['--kern2ekern', '--input_path', p, '--output_path', outs[p], '--verbose', '0'])
+        elif lay == 'api-sequence':
+            # kp.kern_to_ekern called for the three files one after another in ONE interpreter
+            targets = dict(files)
+            outs = {p: os.path.splitext(p)[0] + '.ekrn' for p in targets}
+            code = 'import sys, kernpy as kp\nfor p in sys.argv[1:]:\n    kp.kern_to_ekern(p, p.rsplit(".", 1)[0] + ".ekrn")\n'
+            r = _python(code, list(files))
+            check(r.returncode == 0, f'kp.kern_to_ekern sequence failed: {r.stderr[-400:]}')
         else:
             argv = ['--kern2ekern', '--input_path', tmp, '--verbose', '0'] + (['-r'] if lay == 'dir-recursive' else [])
             _main(argv)
@@ -271,12 +284,12 @@ OBLIGATIONS = [
        enumerated='document, option set (5), directory depth (0-3), directory pre-existing, str / Path', realized_at=['_io._write (real temporary files)'],
        bounds={'quick': '4 x 5 x 4 x 2 x 2', 'thorough': 'same'}),
     Ob(id='C20.d', fn=ob_d, title='--kern2ekern (single file, explicit output, directory, recursive) writes what the API produces; converter round trip',
-       shard_of=lambda layout, order, crlf: layout, shards={'quick': 4, 'thorough': 4}, budget_s={'quick': 150, 'thorough': 600},
+       shard_of=lambda layout, order, crlf: layout + 5 * order, shards={'quick': 15, 'thorough': 15}, budget_s={'quick': 150, 'thorough': 600},
        witnesses=[{'layout': 2, 'order': 0, 'crlf': False}], min_confirmed=40,
-       enumerated='invocation layout (4), order of three scores with 1 / 3 / 2 kern spines over the file names (6), line ending',
-       realized_at=['kernpy.__main__.main() with sys.argv, real temporary files'],
-       bounds={'quick': '4 x 6 x 2 invocations, 1-3 files each (.krn / .kern)', 'thorough': 'same'}),
+       enumerated='invocation layout (5, incl. three kp.kern_to_ekern calls in one interpreter), order of three scores with 1 / 3 / 2 kern spines over the file names (6), line ending',
+       realized_at=['python -m kernpy in a fresh interpreter per invocation, real temporary files'],
+       bounds={'quick': '5 x 6 x 2 invocations, 1-3 files each (.krn / .kern)', 'thorough': 'same'}),
     Ob(id='C20.e', fn=ob_e, title='--ekern2kern on directories (.ekrn / .ekern, recursive or not)',
        budget_s={'quick': 120, 'thorough': 600}, witnesses=[{'layout': 1, 'suffix': 0}], min_confirmed=4, enumerated='recursive flag, suffix arrangement',
-       realized_at=['kernpy.__main__.main() with sys.argv, real temporary files'], bounds={'quick': '2 x 2', 'thorough': 'same'}),
+       realized_at=['python -m kernpy in a fresh interpreter per invocation, real temporary files'], bounds={'quick': '2 x 2', 'thorough': 'same'}),
 ]
